@@ -50,6 +50,9 @@ mod verif_kani {
     // (a two-batch harness of partition_range_indices over `&[Arc<dyn Array>]` was tried and removed: CBMC did not
     //  finish in 15 min -- the dyn Array calls are expanded over every Arrow array type)
 
+    // (a harness for the round-robin arm of partition_iter on a forged partitioner was tried: the other arms of the
+    //  same function make kani-compiler 0.68 panic at codegen/rvalue.rs:1009 -- removed)
+
     // ---- C11: bounded twin of the strength-reduced remainder: divisors 1..=6 and three boundary divisors,
     //      hashes restricted to < 2^16 or within 2^16 of 2^64 (the 64x128-bit multiply is intractable in full) ----
     fn c11_check(d: u64) {
